@@ -72,6 +72,7 @@ func cmdDev(cmd string, args []string) {
 	verbose := fs.Bool("v", false, "verbose")
 	only := fs.String("only", "", "substring filter on obligation names")
 	cover := fs.Bool("cover", false, "also check reachability (vacuity) of every obligation")
+	p1 := fs.Bool("p1", false, "phase 1 only: one solver, short timeout (fast triage)")
 	fs.Parse(args)
 	e := mustLoad()
 	switch cmd {
@@ -136,6 +137,7 @@ func cmdDev(cmd string, args []string) {
 	}
 	header := e.u
 	t0 := time.Now()
+	phase1Only = *p1
 	runObligations(obls, header, time.Duration(*timeout)*time.Second, false)
 	np := 0
 	for _, o := range obls {
@@ -249,6 +251,9 @@ func runObligations(obls []*Obligation, header *Universe, timeout time.Duration,
 			}
 		})
 	}
+	if phase1Only {
+		return
+	}
 	phase(pending(), 5, func(o *Obligation) {
 		r, _ := solve(o.Query(header, true), o.Name, timeout, all)
 		o.Status, o.Solver, o.Output = r.Status, r.Solver, r.Output
@@ -298,3 +303,5 @@ func runCovers(obls []*Obligation, header *Universe, timeout time.Duration) []*O
 func init() { debugCoverDir = os.Getenv("STICKVC_COVERDIR") }
 
 var debugCoverDir string
+
+var phase1Only bool
